@@ -132,8 +132,9 @@ void Log::debugLog(std::string&& buf) {
   }
 
   auto* q = state_.getCurrentQueue();
+  const auto bufSize = buf.size();
   q->emplace_back(std::move(buf));
-  state_.curSize += buf.size();
+  state_.curSize += bufSize;
   state_.cv.notify_one();
 }
 
